@@ -387,6 +387,25 @@ static std::string check_quaint(const Case& c, vf::Ctx& ctx)
             case Q_PUSH_VEC:
             {
                 std::size_t cap_before = vec.capacity();
+                // now and then a whole batch of fresh payloads first: the vector grows through
+                // several reallocations (sizes around powers of two)
+                if (op.v % 16 == 0)
+                {
+                    int batch = 5 + op.v % 61;
+                    for (int k = 0; k < batch; ++k)
+                    {
+                        int id = preg().next_id;
+                        char type = "ABC"[(op.v + k) % 3];
+                        if (type == 'A')
+                            vec.push_back(make_quaint<PA>(k));
+                        else if (type == 'B')
+                            vec.push_back(make_quaint<PB>(k));
+                        else
+                            vec.push_back(make_quaint<PC>(k));
+                        mv.push_back(Owned{ id, type, k });
+                    }
+                    ctx.tag("q:bulk-push");
+                }
                 vec.push_back(std::move(slot[a]));
                 mv.push_back(ms[a]);
                 ms[a] = Owned();
